@@ -417,4 +417,172 @@ theorem pong_port_zero (s : Svc) (peer : Nat) (addr : Addr) (rid : Bytes) (enrSe
 example : 16 + 23 + 32 + nodesRespLen [200, 1, 2, 3, 4, 5, 6, 7] 5 [300, 300, 300, 275] + 16 = 1279 := by
   decide
 
+/-! ### Non-vacuity: a concrete service whose answers need several packets -/
+
+/-- A 300-byte record (the largest an `Enr` can be). -/
+def c14Rec (id : Nat) : Rec :=
+  { id := id, seq := 1, udp4 := some (id * 65536 + 9000), udp6 := none, udp6Mapped := false,
+    size := 300, passesFilter := true }
+
+def c14Node (key : Nat) : Node Rec :=
+  { key := key, value := c14Rec key, st := { conn := true, incoming := false } }
+
+/-- Local id 8; nodes 10, 11 at distance 2 (bucket 1) and 0..4 at distance 4 (bucket 3); all
+records (the own one too) are 300 bytes. -/
+def c14Svc : Svc :=
+  { cfg := { ipMode := .ip4, maxNodesResponse := 16, kb := kbCfg 8 60 },
+    localRec := c14Rec 8,
+    table := ((Table.init 8).setBucket 1 { nodes := [c14Node 10, c14Node 11], fcp := some 0 }).setBucket 3
+      { nodes := [c14Node 0, c14Node 1, c14Node 2, c14Node 3, c14Node 4], fcp := some 0 } }
+
+def c14Addr : Addr := { v6 := false, sock := 7 * 65536 + 9000 }
+def c14Rid : Bytes := [200, 1, 2, 3, 4, 5, 6, 7]
+
+/-- `total`, the record ids and the datagram size of a NODES response. -/
+def c14Summary (rid : Bytes) : Out → Nat × List Nat × Nat
+  | .response _ _ _ (.nodes total recs) =>
+    (total, recs.map (·.id), datagramLen (nodesRespLen rid total (recs.map (·.size))))
+  | _ => (0, [], 0)
+
+/-- An unsorted request with a duplicate and distance 0: own record first, then the buckets by
+increasing distance; eight 300-byte records need three packets of 1004, 1004 and 704 bytes. -/
+example : (c14Svc.sendNodesResponse 99 c14Addr c14Rid [4, 0, 2, 4]).2.map (c14Summary c14Rid) =
+    [(3, [8, 10, 11], 1004), (3, [0, 1, 2], 1004), (3, [3, 4], 704)] := by decide
+
+/-- A `[0, d]` request from a node that is itself stored at distance `d`: own record + the other
+entry of that bucket, the requester's record is left out. -/
+example : (c14Svc.sendNodesResponse 10 c14Addr c14Rid [2, 0]).2.map (c14Summary c14Rid) =
+    [(1, [8, 11], 704)] := by decide
+
+/-- Without distance 0 the own record is not sent; an empty answer is one empty packet. -/
+example : (c14Svc.sendNodesResponse 99 c14Addr c14Rid [2]).2.map (c14Summary c14Rid) =
+    [(1, [10, 11], 704)] := by decide
+example : (c14Svc.sendNodesResponse 99 c14Addr c14Rid [7, 300]).2.map (c14Summary c14Rid) =
+    [(1, [], 100)] := by decide
+
+set_option maxRecDepth 8192 in
+theorem c14Svc_noPending : ∀ b ∈ c14Svc.table.buckets, b.pending.isNone = true := by decide
+
+set_option maxRecDepth 8192 in
+theorem c14Svc_sizes : ∀ b ∈ c14Svc.table.buckets, ∀ n ∈ b.nodes, n.value.size ≤ 300 := by decide
+
+/-- The hypotheses of `served_fits_datagram` hold for `c14Svc` (all sizes are exactly 300). -/
+example : ∀ total recs, Out.response 99 c14Addr c14Rid (.nodes total recs) ∈
+      (c14Svc.sendNodesResponse 99 c14Addr c14Rid [4, 0, 2, 4]).2 →
+    datagramLen (nodesRespLen c14Rid total (recs.map (·.size))) ≤ 1280 :=
+  served_fits_datagram c14Svc 99 c14Addr c14Rid [4, 0, 2, 4] (by decide) (by decide) (by decide)
+    c14Svc_sizes
+    (fun b hb p hp => by have := c14Svc_noPending b hb; rw [hp] at this; cases this)
+
+theorem c14Bucket1_binv (c : KB.Cfg Rec) (tick : Nat) :
+    BInv c tick { nodes := [c14Node 10, c14Node 11], fcp := some 0 } :=
+  { len := by simp
+    split := ⟨[], [c14Node 10, c14Node 11], rfl, by simp, by simp [c14Node], by simp, by simp,
+      by simp [c14Node]⟩
+    keysNodup := by simp [c14Node]
+    pendingFresh := by simp
+    incoming := by simp [c14Node]
+    stampsLe := by simp [c14Node] }
+
+theorem c14Bucket3_binv (c : KB.Cfg Rec) (tick : Nat) :
+    BInv c tick { nodes := [c14Node 0, c14Node 1, c14Node 2, c14Node 3, c14Node 4], fcp := some 0 } :=
+  { len := by simp
+    split := ⟨[], [c14Node 0, c14Node 1, c14Node 2, c14Node 3, c14Node 4], rfl, by simp,
+      by simp [c14Node], by simp, by simp, by simp [c14Node]⟩
+    keysNodup := by simp [c14Node]
+    pendingFresh := by simp
+    incoming := by simp [c14Node]
+    stampsLe := by simp [c14Node] }
+
+theorem c14Svc_tinv : TInv c14Svc.cfg.kb c14Svc.table := by
+  unfold c14Svc
+  simp only
+  refine TInv.setBucket (TInv.setBucket (init_tinv _ 8) ?_ ?_) ?_ ?_
+  · exact c14Bucket1_binv _ _
+  · refine ⟨?_, by simp⟩
+    intro n hn
+    simp only [List.mem_cons, List.not_mem_nil, or_false] at hn
+    rcases hn with rfl | rfl <;> (show bucketIndex 8 _ = some 1; decide)
+  · exact c14Bucket3_binv _ _
+  · refine ⟨?_, by simp⟩
+    intro n hn
+    simp only [List.mem_cons, List.not_mem_nil, or_false] at hn
+    rcases hn with rfl | rfl | rfl | rfl | rfl <;> (show bucketIndex 8 _ = some 3; decide)
+
+/-- `served_table_exact` applies to `c14Svc` (the routing-table invariant holds). -/
+example := served_table_exact c14Svc [4, 0, 2, 4] c14Svc_tinv (by decide)
+
+/-! ### Counterexample to the original formulation of `served_fits_datagram` -/
+
+def c14BigRec : Rec := { c14Rec 48 with size := 2000 }
+
+/-- Bucket 5 (distance 6 from local id 0) is full with the 16 disconnected nodes 32..47 (300-byte
+records) and its pending slot holds node 48 with a 2000-byte record, due for insertion. -/
+def c14CexBucket : Bucket Rec :=
+  { nodes := (List.range 16).map fun i =>
+      { key := 32 + i, value := c14Rec (32 + i), st := { conn := false, incoming := false } },
+    fcp := none,
+    pending := some { node := { key := 48, value := c14BigRec, st := { conn := true, incoming := false } },
+                      replace := 0 } }
+
+/-- The bucket and the table below satisfy the routing-table invariant: `TInv` does not exclude the
+counterexample. -/
+theorem c14CexBucket_binv (c : KB.Cfg Rec) (tick : Nat) : BInv c tick c14CexBucket :=
+  { len := by decide
+    split := ⟨c14CexBucket.nodes, [], by simp, by decide, by simp, by simp [c14CexBucket], by decide, by simp⟩
+    keysNodup := by decide
+    pendingFresh := by
+      intro p hp
+      have : p.node.key = 48 := by
+        simp only [c14CexBucket, Option.some.injEq] at hp
+        rw [← hp]
+      rw [this]; decide
+    incoming := by
+      have : (c14CexBucket.nodes.filter (fun n => n.st.conn && n.st.incoming)).length = 0 := by decide
+      rw [this]; exact Nat.zero_le _
+    stampsLe := by
+      have : ∀ n ∈ c14CexBucket.nodes, n.stamp = 0 := by decide
+      intro n hn; rw [this n hn]; exact Nat.zero_le _ }
+
+theorem c14Cex_tinv (c : KB.Cfg Rec) : TInv c ((Table.init 0).setBucket 5 c14CexBucket) := by
+  refine TInv.setBucket (init_tinv c 0) (c14CexBucket_binv c _) ⟨?_, ?_⟩
+  · have : ∀ n ∈ c14CexBucket.nodes, bucketIndex 0 n.key = some 5 := by decide
+    exact this
+  · intro p hp
+    have : p.node.key = 48 := by
+      simp only [c14CexBucket, Option.some.injEq] at hp
+      rw [← hp]
+    show bucketIndex 0 p.node.key = some 5
+    rw [this]; decide
+
+def c14CexSvc : Svc :=
+  { cfg := { ipMode := .ip4, maxNodesResponse := 16, kb := kbCfg 8 60 },
+    localRec := c14Rec 0,
+    table := (Table.init 0).setBucket 5 c14CexBucket }
+
+example : TInv c14CexSvc.cfg.kb c14CexSvc.table := c14Cex_tinv _
+
+/-- Serving distance 6 promotes the pending node (evicting node 32) and sends its record. -/
+example : (c14CexSvc.sendNodesResponse 99 c14Addr c14Rid [6]).2.map (c14Summary c14Rid) =
+    [(6, [33, 34, 35], 1004), (6, [36, 37, 38], 1004), (6, [39, 40, 41], 1004),
+     (6, [42, 43, 44], 1004), (6, [45, 46, 47], 1004), (6, [48], 2104)] := by decide
+
+set_option maxRecDepth 8192 in
+theorem c14CexSvc_sizes : ∀ b ∈ c14CexSvc.table.buckets, ∀ n ∈ b.nodes, n.value.size ≤ 300 := by decide
+
+/-- The original statement (size bound on the stored nodes only) is false. -/
+theorem served_fits_datagram_original_false :
+    ¬ (∀ (s : Svc) (requester : Nat) (addr : Addr) (rid : Bytes) (ds : List Nat),
+        rid.length ≤ 8 → (1 ≤ s.cfg.maxNodesResponse ∧ s.cfg.maxNodesResponse ≤ 125) →
+        s.localRec.size ≤ 300 →
+        (∀ b ∈ s.table.buckets, ∀ n ∈ b.nodes, n.value.size ≤ 300) →
+        ∀ total recs, Out.response requester addr rid (.nodes total recs) ∈
+            (s.sendNodesResponse requester addr rid ds).2 →
+          datagramLen (nodesRespLen rid total (recs.map (·.size))) ≤ 1280) := by
+  intro h
+  have h1 := h c14CexSvc 99 c14Addr c14Rid [6] (by decide) (by decide) (by decide) c14CexSvc_sizes
+    6 [c14BigRec] (by decide)
+  revert h1
+  decide
+
 end Discv5.Props.C14
